@@ -57,7 +57,8 @@ ASSUMPTIONS = [
     "implementation's private characters _ ^ * and the word LIKE never occur "
     'in input',
     'surface numbers are non-zero; facet suffix is one digit',
-    'layout family of C11_parse_print: any blanks before/after tokens and '
+    'layout family of C11_parse_print: any blanks before/after tokens (none '
+    'needed between : and #, /repo d73f13e) and '
     'after #, any digit spelling, optional +, redundant parentheses as '
     'MParen nodes of the expression',
     'complement of a lattice cell: the code returns an empty intersection; '
